@@ -171,8 +171,12 @@ impl Match {
         if name.is_empty() {
             return None;
         }
-        let pos = self.group_names.iter().position(|s| s.as_ref() == name)?;
-        self.captures[pos].clone()
+        // A name may be shared by groups in different alternatives: report the one that participated.
+        self.group_names
+            .iter()
+            .zip(self.captures.iter())
+            .filter(|(n, _)| n.as_ref() == name)
+            .find_map(|(_, c)| c.clone())
     }
 
     /// Return an iterator over the named groups of a Match.
